@@ -394,9 +394,10 @@ func parentMain() int {
 	// race logs
 	raceFiles, blocks := ev.ReadRaceLogs(filepath.Join(scratch, "b."))
 	raceHere, raceElsewhere, raceHarness := 0, 0, 0
+	var foreignRaces []vrec
 	raceKeys := map[string]int{}
 	for _, rb := range blocks {
-		if !rb.InCoercion() {
+		if !rb.InCoercion() || rb.InHook() {
 			raceHarness++
 			if raceHarness <= 3 {
 				broken = append(broken, "race report without coercion frames on both sides (harness race):\n"+tail(rb.Text, 3000))
@@ -404,16 +405,20 @@ func parentMain() int {
 			continue
 		}
 		mine := p.RaceAttr != nil && p.RaceAttr(rb)
+		claimer := ""
 		if !mine {
 			// a block no property's table claims belongs to the property whose workload is running
-			claimed := false
-			for _, q := range registry {
+			var ids []string
+			for id, q := range registry {
 				if q.RaceAttr != nil && q.RaceAttr(rb) {
-					claimed = true
-					break
+					ids = append(ids, id)
 				}
 			}
-			mine = !claimed
+			sort.Strings(ids)
+			if len(ids) > 0 {
+				claimer = ids[0]
+			}
+			mine = claimer == ""
 		}
 		if mine {
 			raceHere++
@@ -423,7 +428,14 @@ func parentMain() int {
 				viols = append(viols, vrec{ev.V(p.ID, "race", k, "data race: %s", k), -1, map[string]any{"race_block": rb.Text}, ""})
 			}
 		} else {
+			// a race in code another property's table claims, reached by this property's workload: still a race in
+			// the code under test, reported against the claiming property
 			raceElsewhere++
+			k := claimer + "|" + rb.Key()
+			raceKeys[k]++
+			if raceKeys[k] == 1 {
+				foreignRaces = append(foreignRaces, vrec{ev.V(claimer, "race", rb.Key(), "data race (seen under the %s workload): %s", p.ID, rb.Key()), -1, map[string]any{"race_block": rb.Text}, ""})
+			}
 		}
 	}
 
@@ -476,6 +488,22 @@ func parentMain() int {
 		}
 		fmt.Printf("VIOLATION property=%s replay=%s\n", p.ID, rp)
 		fmt.Printf("  signature: %s (x%d)\n  %s\n", sig, len(nv.recs), first.v.Msg)
+		exit = 1
+	}
+
+	for _, fr := range foreignRaces {
+		if _, ok := ev.IsKnown(known, fr.v.Prop, fr.v.Sig); ok {
+			continue
+		}
+		rp, err := ev.WriteReplay(fr.v.Prop, fmt.Sprintf("%s-%d-race-under-%s-%s", tier, seed, p.ID, sanitize(fr.v.Sig)), map[string]any{
+			"property": fr.v.Prop, "tier": tier, "seed": seed, "index": -1, "signature": fr.v.Sig,
+			"message": fr.v.Msg, "witness": fr.wit, "workload_of": p.ID,
+		})
+		if err != nil {
+			rp = "<could not write replay: " + err.Error() + ">"
+		}
+		fmt.Printf("VIOLATION property=%s replay=%s\n", fr.v.Prop, rp)
+		fmt.Printf("  signature: %s\n  %s\n", fr.v.Sig, fr.v.Msg)
 		exit = 1
 	}
 
